@@ -87,6 +87,60 @@ def program(kind, ctx):
     return {"name": "%s__%s" % (kind, ctx), "files": files, "main": "main.py", "start": start, "kind": kind, "ctx": ctx}
 
 
+# ------------------------------------------------------------------------------------------ javascript
+JS_LEAF = "function leaf(a) {\n    return a;\n}\nfunction tgt(a) {\n    var b = leaf(a);\n    return b;\n}\nfunction other(a) {\n    return a;\n}\n"
+JS_K = "class K {\n    constructor(v) {\n        this.v = v;\n    }\n    m(x) {\n        var y = tgt(x);\n        return y;\n    }\n}\n"
+JS_ABC = ("class A {\n    constructor(v) {\n        this.v = v;\n    }\n    m(x) {\n        var y = tgt(x);\n        return y;\n    }\n}\n"
+          "class B extends A {\n    extra(x) {\n        return x;\n    }\n}\n"
+          "class C extends B {\n    n(x) {\n        var z = this.m(x);\n        return z;\n    }\n}\n")
+JS_KINDS = {
+    "direct": (JS_LEAF, [], "tgt(1)"),
+    "ctor": (JS_LEAF + JS_K, [], "new K(1)"),
+    "method": (JS_LEAF + JS_K, ["var o = new K(1);"], "o.m(2)"),
+    "inherited2": (JS_LEAF + JS_ABC, ["var o = new B(1);"], "o.m(2)"),
+    "inherited3": (JS_LEAF + JS_ABC, ["var o = new C(1);"], "o.m(2)"),
+    "self_call_inherited": (JS_LEAF + JS_ABC, ["var o = new C(1);"], "o.n(2)"),
+    "override": (JS_LEAF + JS_ABC + "class D extends A {\n    m(x) {\n        var w = other(x);\n        return w;\n    }\n}\n", ["var o = new D(1);"], "o.m(2)"),
+    "callback": (JS_LEAF + "function apply(g, x) {\n    var r = g(x);\n    return r;\n}\n", [], "apply(tgt, 1)"),
+    "returned": (JS_LEAF + "function mk() {\n    return tgt;\n}\n", ["var h = mk();"], "h(1)"),
+    "field_stored": (JS_LEAF + JS_K, ["var o = new K(1);", "o.cb = tgt;"], "o.cb(1)"),
+    "list_stored": (JS_LEAF, ["var fs = [other, tgt];"], "fs[1](1)"),
+    "assigned": (JS_LEAF, ["var g = tgt;"], "g(1)"),
+    "closure": (JS_LEAF + "function outer() {\n    function inner(a) {\n        var c = tgt(a);\n        return c;\n    }\n    return inner;\n}\n", ["var h = outer();"], "h(1)"),
+    "nested_def": (JS_LEAF + "function outer(a) {\n    function inner(b) {\n        var c = tgt(b);\n        return c;\n    }\n    var d = inner(a);\n    return d;\n}\n", [], "outer(1)"),
+}
+
+
+def js_ctx_top(setup, call):
+    return setup + ["var r = " + call + ";"]
+
+
+def js_ctx_function(setup, call):
+    return ["function main() {"] + ["    " + x for x in setup] + ["    var r = " + call + ";", "    return r;", "}", "main();"]
+
+
+def js_ctx_branch(setup, call):
+    return setup + ["var r = null;", "if (choice()) {", "    r = " + call + ";", "} else {", "    r = other(5);", "}"]
+
+
+def js_ctx_loop(setup, call):
+    return setup + ["var r = null;", "for (var i = 0; i < 2; i++) {", "    r = " + call + ";", "}"]
+
+
+def js_ctx_two_sites(setup, call):
+    return setup + ["var r1 = " + call + ";", "var r2 = " + call + ";", "var r3 = other(3);"]
+
+
+JS_CONTEXTS = {"top": js_ctx_top, "function": js_ctx_function, "branch": js_ctx_branch, "loop": js_ctx_loop, "two_sites": js_ctx_two_sites}
+
+
+def js_program(kind, ctx):
+    defs, setup, call = JS_KINDS[kind]
+    body = JS_CONTEXTS[ctx](list(setup), call)
+    return {"name": "js_%s__%s" % (kind, ctx), "files": {"main.js": defs + "\n".join(body) + "\n"}, "main": "main.js", "start": "", "kind": "js_" + kind, "ctx": ctx,
+            "lang": "javascript"}
+
+
 def multi_entry(n):
     """n modules with top-level code (n entry points) whose call chains converge on one call site three levels down."""
     lib = "def deep(a):\n    return a\n\ndef helper(a):\n    b = deep(a)\n    return b\n\ndef run(a):\n    c = helper(a)\n    return c\n"
@@ -101,8 +155,10 @@ def universe(tier, seed):
     import random
     alls = [program(k, c) for k in KINDS for c in CONTEXTS]
     multi = [multi_entry(3), multi_entry(5)]
+    js = [js_program(k, c) for k in JS_KINDS for c in JS_CONTEXTS]
     if tier == "thorough":
-        return alls + multi
+        return alls + multi + js
+    multi = multi + [p for p in js if p["ctx"] in ("top", "branch")]
     core = [p for p in alls if p["ctx"] in ("top", "function") or (p["kind"] in ("direct", "method", "callback") and p["ctx"] != "top")]
     rest = [p for p in alls if p not in core]
     return core + multi + random.Random(seed).sample(rest, 30)
